@@ -50,6 +50,10 @@ func cfgFor(id string) propCfg {
 		c.Fuzz = []fuzzTarget{{"FuzzInterp", 4 * time.Minute}}
 	case "C08":
 		c.Fuzz = []fuzzTarget{{"FuzzAlias", 2 * time.Minute}}
+	case "C10":
+		c.Fuzz = []fuzzTarget{{"FuzzChange", 2 * time.Minute}}
+	case "C16":
+		c.Fuzz = []fuzzTarget{{"FuzzObjects", 2 * time.Minute}}
 	case "C13":
 		c.Fuzz = []fuzzTarget{{"FuzzScript", 2 * time.Minute}}
 	case "C14":
